@@ -84,7 +84,7 @@ def run(ck, ctx):
         bi, t = anyc[0]
         src = nf.arg_x(lb, t, 0, bi, D)
         pred = nf.inline_closures(F, OL, nf.arg_x(lb, t, 1, bi, 6))
-        rng = lambda k: "Range(from(arg2.%s.0), Add(Vec::len(arg2.%s.1), from(arg2.%s.0)))" % (k, k, k)
+        rng = lambda k: "Range((arg2.%s.0 as usize), Add((arg2.%s.0 as usize), Vec::len(arg2.%s.1)))" % (k, k, k)
         want_pred = "%s[ranges_overlap(%s, %s)]()" % (L, rng(0), rng(1))
         nxt = [(b2, t2) for b2, t2, c2, _ in lb.calls() if (c2 or "").endswith("Iterator>::next") and "btree_map::Iter" in (c2 or "")]
         adv = len(nxt) == 1 and lb.dominates(nxt[0][0], bi) and nf.arg_x(lb, nxt[0][1], 0, nxt[0][0], D) == "BTreeMap::iter(arg1.block_map)"
